@@ -147,6 +147,19 @@ def run_wall(ctx, binp, corr_broken):
     for l in out.splitlines():
         if l.startswith("ORACLE-FAIL"):
             ctx.violation("wall-oracle:EARLY", l, "TestVerifWallClock seed %s\n%s\n" % (ctx.seed, l))
+    rc2, out2 = ctx.run_cmd([binp, "-test.run", "^TestVerifTouchTCP$", "-test.count=1", "-test.timeout=300s"],
+                            timeout=330, env={"VERIF_SEED": ctx.seed, "VERIF_N": ctx.budget(30, 300), "VERIF_OUT": ctx.work})
+    for l in out2.splitlines():
+        if l.startswith("ORACLE-FAIL"):
+            ctx.violation("touchtcp-oracle:" + ("first" if "first delivery" in l else "TOUCH"), l,
+                          "TestVerifTouchTCP seed %s\n%s\n" % (ctx.seed, l))
+    m2 = re.search(r"TOUCHTCP-OK cases=(\d+)", out2)
+    if m2:
+        ctx.evaluations += int(m2.group(1))
+        ctx.corr["touch_tcp"] = m2.group(0)
+    elif "ORACLE-FAIL" not in out2 and "no tests to run" not in out2:
+        ctx.log("TestVerifTouchTCP did not complete (rc=%s):\n%s" % (rc2, out2[-1500:]))
+        corr_broken.append("touch-tcp harness exit %s" % rc2)
     okl = [l for l in out.splitlines() if l.startswith("WALL-OK")]
     if okl:
         ctx.corr["wall_clock"] = {"summary": okl[0], "late": [l for l in out.splitlines() if l.startswith("WALL-LATE")][:10]}
